@@ -323,23 +323,43 @@ add("i4_yaml_output_framing", "yaml", overlay=DEP,
     desc="yaml::Output: '---' line before every document through both entry points; short writes deliver exactly the output; write fault at any byte => Err",
     bounds="2 one-token documents, any short-write pattern, fault at any byte", functions=["yaml::Output::transcode_from", "yaml::Output::transcode_value"],
     covers=["I4 yaml short writes", "I4 yaml marker write fails midway"], props=["C03", "C12"], timeout=1200, mem_gb=14, assumptions=I_ASM)
-add("i3_toml_output", "toml", overlay=DEP,
-    desc="toml::Output over every two-call history: nothing written unless the first document's root is a table without nulls; exactly its rendering is written; the output is marked used before deserialization; any second document/input is refused before anything is pulled from it and nothing more is written",
-    bounds="2 calls, each a document with root in {null,bool,int,seq,map,error}, <= 2 entries, null at any entry, either entry point; writer fault at any byte",
+add("i3_toml_output_first", "toml", overlay=DEP,
+    desc="toml::Output, FIRST document: nothing is written unless the root is a table without nulls; exactly its rendering is written; the output is marked used before deserialization; a refused document renders and writes nothing",
+    bounds="a document with root in {null,bool,int,seq,map,error}, <= 2 entries, null at any entry, either entry point; writer fault at any byte",
     functions=["toml::Output::transcode_from", "toml::Output::transcode_value", "toml::Output::ensure_one_use", "toml::Output::output_value"],
-    covers=["I3 empty table writes nothing and succeeds", "I3 table written"], props=["C08", "C11"], timeout=1200, mem_gb=14,
+    covers=["I3 empty table writes nothing and succeeds", "I3 table written", "I3 null in the second entry refused", "I3 array root refused"], props=["C08", "C11"], timeout=1500, mem_gb=16,
     assumptions=I_ASM[:1] + ["toml model: Value built from serde events (root kind, entry count), nulls refused as in the real crate, to_string_pretty renders one byte per entry (empty table = empty string) or fails"])
+add("i3_toml_output_second", "toml", overlay=DEP,
+    desc="toml::Output, SECOND document or input after a first one of any fate (incl. an empty table that wrote zero bytes): refused before anything is pulled from its deserializer/value, nothing more written",
+    bounds="first: empty table / one-entry table / refused scalar; second: any document, either entry point",
+    functions=["toml::Output::transcode_from", "toml::Output::transcode_value", "toml::Output::ensure_one_use"],
+    covers=["I3 valid table after an empty table is refused"], props=["C08"], timeout=1500, mem_gb=16, assumptions=I_ASM[:1])
 add("i3_toml_transcode_single_document", "toml", overlay=DEP,
     desc="toml::transcode: the whole input is one document handed to the output exactly once; invalid UTF-8 or a syntax error translates nothing",
     bounds="input 0..3 symbolic bytes", functions=["toml::transcode", "Cow::try_from(Handle)"], covers=["I3t three entries"], props=["C08", "C03"], timeout=900, mem_gb=12, assumptions=I_ASM[:1])
-add("f2_translate_dispatch", "", overlay=DEP,
-    desc="Translator::translate: a named format skips detection and runs exactly that format's parser; otherwise detection runs once and its answer is used exactly as if named; None / detection error => Err, nothing parsed, nothing written",
-    bounds="all (named format, detection outcome, target) combinations, 1-byte input", functions=["Translator::translate", "Translator::translate_slice", "Dispatcher"],
-    covers=["F2 unable to detect", "F2 detected YAML dispatched", "F2 named TOML"], props=["C09", "C03"], timeout=1200, mem_gb=14,
+add("f2_dispatch_msgpack", "", overlay=DEP,
+    desc="Translator::translate for msgpack: naming the format skips detection and runs exactly its parser; a detected answer is dispatched exactly as if named; no answer / detection error => Err, nothing parsed, nothing written",
+    bounds="format named or not, detection answers {none, error, this format}, 1-byte input", functions=["Translator::translate", "Translator::translate_slice", "Dispatcher"],
+    covers=["F2 unable to detect", "F2 detected format dispatched", "F2 named format dispatched"], props=["C09"], timeout=1500, mem_gb=16,
+    assumptions=I_ASM[:1] + ["detect_format replaced by a stub with a symbolic answer (its own logic is family F1)"], replay="none")
+add("f2_dispatch_json", "", overlay=DEP,
+    desc="Translator::translate for json: naming the format skips detection and runs exactly its parser; a detected answer is dispatched exactly as if named; no answer / detection error => Err, nothing parsed, nothing written",
+    bounds="format named or not, detection answers {none, error, this format}, 1-byte input", functions=["Translator::translate", "Translator::translate_slice", "Dispatcher"],
+    covers=["F2 unable to detect", "F2 detected format dispatched", "F2 named format dispatched"], props=["C09", "C03"], timeout=1500, mem_gb=16,
+    assumptions=I_ASM[:1] + ["detect_format replaced by a stub with a symbolic answer (its own logic is family F1)"], replay="none")
+add("f2_dispatch_yaml", "", overlay=DEP,
+    desc="Translator::translate for yaml: naming the format skips detection and runs exactly its parser; a detected answer is dispatched exactly as if named; no answer / detection error => Err, nothing parsed, nothing written",
+    bounds="format named or not, detection answers {none, error, this format}, 1-byte input", functions=["Translator::translate", "Translator::translate_slice", "Dispatcher"],
+    covers=["F2 unable to detect", "F2 detected format dispatched", "F2 named format dispatched"], props=["C09"], timeout=1500, mem_gb=16,
+    assumptions=I_ASM[:1] + ["detect_format replaced by a stub with a symbolic answer (its own logic is family F1)"], replay="none")
+add("f2_dispatch_toml", "", overlay=DEP,
+    desc="Translator::translate for toml: naming the format skips detection and runs exactly its parser; a detected answer is dispatched exactly as if named; no answer / detection error => Err, nothing parsed, nothing written",
+    bounds="format named or not, detection answers {none, error, this format}, 1-byte input", functions=["Translator::translate", "Translator::translate_slice", "Dispatcher"],
+    covers=["F2 unable to detect", "F2 detected format dispatched", "F2 named format dispatched"], props=["C09"], timeout=1500, mem_gb=16,
     assumptions=I_ASM[:1] + ["detect_format replaced by a stub with a symbolic answer (its own logic is family F1)"], replay="none")
 add("i4_translator_two_inputs", "", overlay=DEP,
     desc="one Translator, two inputs in different formats, JSON target: the writer holds the ordered concatenation of the per-document translations; flush reaches the writer",
-    bounds="first input 2 documents (JSON or YAML), second 1 document (JSON or YAML); all token values", functions=["Translator::translate_slice", "Translator::flush", "Dispatcher (Output impl)"],
+    bounds="first input 2 JSON documents, second 1 document (JSON or YAML); all token values", functions=["Translator::translate_slice", "Translator::flush", "Dispatcher (Output impl)"],
     covers=["I4t two inputs translated"], props=["C03"], timeout=1200, mem_gb=14, assumptions=I_ASM[:1])
 
 
